@@ -222,47 +222,50 @@ Lemma fails_open_neq k : fails_key k <> open_key k. Proof. apply suffix_neq. dis
 Lemma XInv_frame k period m m' tl H : m' k = m k -> XInv k period m tl H -> XInv k period m' tl H.
 Proof. intros E (A & B & C & D). unfold XInv. rewrite E. auto. Qed.
 
-(* T = instants of the calls that got past the open check, F = those among them that failed with a listed exception *)
-Theorem breaker_step k rate period ttl mc m tl tlf T F now o :
-  0 < period -> 0 < ttl -> tl < now -> tlf < now ->
+(* T = instants of the calls that got past the open check, F = the instants at which those among them that failed with a
+   listed exception failed.  The call starts at `now`; its outcome is known at `fin` >= now. *)
+Theorem breaker_step_at k rate period ttl mc m tl tlf T F now fin o :
+  0 < period -> 0 < ttl -> tl < now -> now <= fin -> tlf < fin ->
   XInv (total_key k) period m tl T -> XInv (fails_key k) period m tlf F ->
-  cnt (closedw now period) T < 9999 -> cnt (closedw now period) F < 9999 ->
-  let '(m', res, tripped) := breaker_call m now k rate period ttl mc o in
+  cnt (closedw now period) T < 9999 -> cnt (closedw fin period) F < 9999 ->
+  let '(m', res, tripped) := breaker_call_at m now fin k rate period ttl mc o in
   match s_look m now (open_key k) with
   | Some _ => res = BOpen /\ m' = m /\ tripped = false                    (* open: the function is not run *)
   | None =>
       res = BRan o /\ XInv (total_key k) period m' now (now :: T) /\
       (match o with
-       | BFailListed => XInv (fails_key k) period m' now (now :: F)
+       | BFailListed => XInv (fails_key k) period m' fin (fin :: F)
        | _ => XInv (fails_key k) period m' tlf F
        end) /\
       (* it trips exactly when the call failed with a listed exception and the window counts meet the rule; the
-         counts are the history's, exact up to instants lying exactly `period` back *)
+         counts are the history's (calls in the period before the start, failures in the period before the failure),
+         exact up to instants lying exactly `period` back *)
       (exists total fails,
           cnt (strictw now period) T + 1 <= total <= cnt (closedw now period) T + 1 /\
-          (o = BFailListed -> cnt (strictw now period) F + 1 <= fails <= cnt (closedw now period) F + 1) /\
+          (o = BFailListed -> cnt (strictw fin period) F + 1 <= fails <= cnt (closedw fin period) F + 1) /\
           (tripped = true <-> o = BFailListed /\ mc <= total /\ rate * total <= fails * 100)) /\
-      (tripped = true -> s_look m' now (open_key k) = Some (Some (now + ttl), VInt 1))
+      (tripped = true -> s_look m' fin (open_key k) = Some (Some (fin + ttl), VInt 1))
   end.
 Proof.
-  intros Hp Ht Hl Hlf XT XF MT MF. unfold breaker_call.
+  intros Hp Ht Hl Hfin Hlf XT XF MT MF. unfold breaker_call_at.
   destruct (s_look m now (open_key k)) as [e|] eqn:Op; cbn [isSome]; [auto|].
   pose proof (log_step (total_key k) period m tl T now 9999 Hp Hl XT MT) as LT.
   destruct (slice_incr m now (total_key k) (now - period) now 9999 period) as [m1 total] eqn:E1.
   destruct LT as (Tlo & Thi & XT1 & Fr1).
   assert (XF1 : XInv (fails_key k) period m1 tlf F).
   { apply (XInv_frame _ _ m); [apply Fr1; intro E; symmetry in E; exact (total_fails_neq k E)|exact XF]. }
-  assert (Op1 : s_look m1 now (open_key k) = None).
-  { unfold s_look in *. rewrite Fr1 by (intro E; symmetry in E; exact (total_open_neq k E)). exact Op. }
+  assert (Op1 : s_look m1 fin (open_key k) = None).
+  { pose proof (dead_mono m now fin (open_key k) Hfin Op) as D. unfold dead, s_look in *.
+    rewrite Fr1 by (intro E; symmetry in E; exact (total_open_neq k E)). exact D. }
   destruct o.
   - split; [reflexivity|]. split; [exact XT1|]. split; [exact XF1|]. split; [|discriminate].
     exists total, 0. split; [lia|]. split; [discriminate|]. split; [discriminate|intros [E _]; discriminate].
-  - pose proof (log_step (fails_key k) period m1 tlf F now 9999 Hp Hlf XF1 MF) as LF.
-    destruct (slice_incr m1 now (fails_key k) (now - period) now 9999 period) as [m2 fails] eqn:E2.
+  - pose proof (log_step (fails_key k) period m1 tlf F fin 9999 Hp Hlf XF1 MF) as LF.
+    destruct (slice_incr m1 fin (fails_key k) (fin - period) fin 9999 period) as [m2 fails] eqn:E2.
     destruct LF as (Flo & Fhi & XF2 & Fr2).
     assert (XT2 : XInv (total_key k) period m2 now (now :: T)).
     { apply (XInv_frame _ _ m1); [apply Fr2; exact (total_fails_neq k)|exact XT1]. }
-    assert (Op2 : s_look m2 now (open_key k) = None).
+    assert (Op2 : s_look m2 fin (open_key k) = None).
     { unfold s_look in *. rewrite Fr2 by (intro E; symmetry in E; exact (fails_open_neq k E)). exact Op1. }
     assert (T0 : (total =? 0) = false) by (apply Z.eqb_neq; unfold cnt in *; lia).
     rewrite T0. cbn [negb andb].
@@ -271,7 +274,7 @@ Proof.
       exists total, fails. split; [lia|]. split; [intros _; lia|]. split; [discriminate|]. intros (_ & Hm & _). lia.
     + destruct (Z.leb_spec (rate * total) (fails * 100)) as [Hr|Hr].
       * rewrite Op2. cbn [isSome].
-        assert (Wo : s_look (s_write m2 now (open_key k) (VInt 1) ttl) now (open_key k) = Some (Some (now + ttl), VInt 1))
+        assert (Wo : s_look (s_write m2 fin (open_key k) (VInt 1) ttl) fin (open_key k) = Some (Some (fin + ttl), VInt 1))
           by (apply s_look_write_pos; exact Ht).
         split; [reflexivity|]. split; [|split; [|split; [|intros _; exact Wo]]].
         -- apply (XInv_frame _ _ m2); [apply s_write_other; exact (total_open_neq k)|exact XT2].
@@ -281,6 +284,31 @@ Proof.
         exists total, fails. split; [lia|]. split; [intros _; lia|]. split; [discriminate|]. intros (_ & _ & Hx). lia.
   - split; [reflexivity|]. split; [exact XT1|]. split; [exact XF1|]. split; [|discriminate].
     exists total, 0. split; [lia|]. split; [discriminate|]. split; [discriminate|intros [E _]; discriminate].
+Qed.
+
+(* the instantaneous call *)
+Theorem breaker_step k rate period ttl mc m tl tlf T F now o :
+  0 < period -> 0 < ttl -> tl < now -> tlf < now ->
+  XInv (total_key k) period m tl T -> XInv (fails_key k) period m tlf F ->
+  cnt (closedw now period) T < 9999 -> cnt (closedw now period) F < 9999 ->
+  let '(m', res, tripped) := breaker_call m now k rate period ttl mc o in
+  match s_look m now (open_key k) with
+  | Some _ => res = BOpen /\ m' = m /\ tripped = false
+  | None =>
+      res = BRan o /\ XInv (total_key k) period m' now (now :: T) /\
+      (match o with
+       | BFailListed => XInv (fails_key k) period m' now (now :: F)
+       | _ => XInv (fails_key k) period m' tlf F
+       end) /\
+      (exists total fails,
+          cnt (strictw now period) T + 1 <= total <= cnt (closedw now period) T + 1 /\
+          (o = BFailListed -> cnt (strictw now period) F + 1 <= fails <= cnt (closedw now period) F + 1) /\
+          (tripped = true <-> o = BFailListed /\ mc <= total /\ rate * total <= fails * 100)) /\
+      (tripped = true -> s_look m' now (open_key k) = Some (Some (now + ttl), VInt 1))
+  end.
+Proof.
+  intros Hp Ht Hl Hlf XT XF MT MF. unfold breaker_call.
+  exact (breaker_step_at k rate period ttl mc m tl tlf T F now now o Hp Ht Hl (Z.le_refl now) Hlf XT XF MT MF).
 Qed.
 
 (* with no call lying exactly `period` back, the two window counts coincide and the rule is the property's rule *)
